@@ -25,8 +25,8 @@ func (*c03) ID() string { return "C03" }
 func (*c03) Rule() string {
 	return "runnable programs (the runnable generator over bash features, plus the repo's safe deterministic runTests programs) are parsed with the Bash variant and printed under a handful of printer option points (default, Indent, BinaryNextLine, SwitchCaseIndent+SpaceRedirects+FunctionNextLine, SingleLine, Minify with Simplify as shfmt -mn does, random lattice points; no KeepPadding); the original and each formatted text are run by interp.Runner and by bash 5.2 in fresh sealed scratch directories. Oracle: interp(original)==interp(formatted) and bash(original)==bash(formatted) on stdout bytes and exit status; interp is never compared with bash here. Inputs ending in a lone backslash are excluded. Non-trivial: the formatted text differs from the original; distinct: hash of (source, options)."
 }
-func (*c03) NumCases(tier string) int      { return tierN(tier, 260, 8000) }
-func (*c03) MinNontrivial(tier string) int { return tierN(tier, 150, 4000) }
+func (*c03) NumCases(tier string) int      { return tierN(tier, 260, 4000) }
+func (*c03) MinNontrivial(tier string) int { return tierN(tier, 150, 2000) }
 func (*c03) New() any                      { return &ProgCase{} }
 func (*c03) CaseTimeout() time.Duration    { return 300 * time.Second }
 func (*c03) Assumptions() []string {
